@@ -48,11 +48,16 @@
   On the boundary `P = 0` (outside the property's domain) the nine-branch operator evaluated 0/0 and rejected
   (`SLV.Props.Pinned.C14_pinned_boundary_P0_rejected`); the current operator accepts (`C14_boundary_P0_accepted`).
 
+  Since repair cf81fd9 the operator clamps `b = bI - ay k` and `d = dI - (1-ay) k` at zero before the renormalisation.  On
+  well-formed operands both are `≥ 0` (`res_nonneg`), the clamp is the identity in the lift (`deduce_fin_of_K`) and every
+  statement below is unchanged.  What the clamp guarantees for ALL operands: `C14_masses_nonneg_gen` (§5b).
+
   The formerly failing Case III input of the pinned tree is `SLV.Props.Pinned.C14_repaired_accepts`
   (SLV/Props/Pinned.lean); it lies in `Dom14` and is covered by `C14_closed_form` (see `C14_repaired`).
 -/
 import SLV.Refine.C14Lemmas
 import SLV.Refine.C14Nine
+import SLV.Model.Pinned
 
 namespace SLV.Props.C14
 open SLV Scalar
@@ -235,7 +240,7 @@ theorem C14_case1 (hx : BWF b d u a) (h0 : SWF3 b0 d0 u0) (h1 : SWF3 b1 d1 u1)
   refine ⟨?_, w⟩
   have hK := deduceK_I (f := f) (b := b) (d := d) (u := u) (a := a) (u0 := u0) (u1 := u1) (ay := ay) hI
   rw [Kq_I hI] at hK
-  rw [deduce_fin_of_K w.hs (by rw [hK]), hK]
+  rw [deduce_fin_of_K (K := 0) w.hs (by simpa using w.hb) (by simpa using w.hd) (by rw [hK]), hK]
   simp only [mul_zero, sub_zero, add_zero]
   rw [BOp.tryNew_fin_ok w.hb w.hd w.hu w.hs w.ha0 w.ha1]
 
@@ -420,6 +425,82 @@ theorem C14_AB_tie_III (h : Dom14 b d u a b0 d0 u0 b1 d1 u1 ay)
   have t : (1 - a) * (b1 - b0) * (1 - ay) = ay * a * (d0 - d1) := by linarith
   have e2 : (1 - a) * u * (b1 - b0) * (1 - ay) = u * ((1 - a) * (b1 - b0) * (1 - ay)) := by ring
   rw [e2, t]; ring
+
+/-! ### 5b. repair cf81fd9: clamped belief and disbelief, for ALL operands
+
+`deduce` clamps `b = bi - ay·k` and `d = di - (1-ay)·k` at zero before the division by `s = b + d + u`; the uncertainty
+`u = ui + k` is a sum and is not clamped.  No well-formedness and no finiteness of the operands is assumed below.  On
+well-formed operands the clamp is the identity (`res_nonneg`, used by `deduce_fin_of_K`): every statement above is the one
+proved for the un-clamped operator (`Pinned.bdeduceNoClamp`).  In floating point the un-clamped difference is a rounding
+residue of either sign where the exact mass is 0 (`SLV.Props.Pinned.C14_pinned_bdeduce_negative_mass`). -/
+
+/-- For ALL operands (`U` is the model's un-normalised uncertainty `ui + k`):
+    (1) what `deduce` hands to the checked constructor are the quotients `b/s`, `d/s`, `U/s`, `s = b + d + U`, of two values
+        `b`, `d` that do not compare below zero (finite `≥ 0`, `+∞` or NaN); if `U` does not compare below zero either, none
+        of the three quotients does;
+    (2) an ACCEPTED result whose `U` does not compare below zero is an exactly well-formed simplex: the three masses are
+        finite, each `≥ 0`, they add up to exactly 1 -- hence `u ≤ 1` -- whatever the operands were.
+    The condition on `U` cannot be dropped: see the second example below (`U < 0` makes `s < 0` and turns the sign of the
+    clamped masses; the tolerance of the constructor then accepts `b = -1/(2^53 - 1)`). -/
+theorem C14_masses_nonneg_gen (w : BOp (XQ f)) (c0 c1 : XQ f × XQ f × XQ f) (ay U : XQ f)
+    (hU : U = w.b * c0.2.2 + w.d * c1.2.2 + w.u * (c0.2.2 * w.a + c1.2.2 * (Scalar.one - w.a))
+              + (BOp.deduceK w c0 c1 ay).1) :
+    (∃ b d : XQ f,
+      (BOp.deduce w c0 c1 ay).1 = BOp.tryNew (b / (b + d + U)) (d / (b + d + U)) (U / (b + d + U)) ay ∧
+      Scalar.lt b (Scalar.zero : XQ f) = false ∧ Scalar.lt d (Scalar.zero : XQ f) = false ∧
+      (Scalar.lt U (Scalar.zero : XQ f) = false →
+        Scalar.lt (b / (b + d + U)) (Scalar.zero : XQ f) = false ∧
+        Scalar.lt (d / (b + d + U)) (Scalar.zero : XQ f) = false ∧
+        Scalar.lt (U / (b + d + U)) (Scalar.zero : XQ f) = false)) ∧
+    (∀ r : BOp (XQ f), (BOp.deduce w c0 c1 ay).1 = .ok r → Scalar.lt U (Scalar.zero : XQ f) = false →
+      ∃ p q t : ℚ, r.b = XQ.fin p ∧ r.d = XQ.fin q ∧ r.u = XQ.fin t ∧
+        0 ≤ p ∧ 0 ≤ q ∧ 0 ≤ t ∧ p + q + t = 1 ∧ t ≤ 1) := by
+  subst hU
+  exact ⟨BOp.deduce_notNeg w c0 c1 ay, fun r hr hu => BOp.deduce_ok_wf w c0 c1 ay hr hu⟩
+
+/-- on lifted well-formed operands with `0 < ay < 1` the hypothesis of `C14_masses_nonneg_gen` holds: `U = uI + K ≥ 0` -/
+theorem C14_masses_nonneg_gen_applies (hx : BWF b d u a) (h0 : SWF3 b0 d0 u0) (h1 : SWF3 b1 d1 u1)
+    (hy0 : 0 < ay) (hy1 : ay < 1) :
+    Scalar.lt ((liftB (f := f) b d u a).b * (liftS (f := f) b0 d0 u0).2.2
+        + (liftB (f := f) b d u a).d * (liftS (f := f) b1 d1 u1).2.2
+        + (liftB (f := f) b d u a).u * ((liftS (f := f) b0 d0 u0).2.2 * (liftB (f := f) b d u a).a
+            + (liftS (f := f) b1 d1 u1).2.2 * (Scalar.one - (liftB (f := f) b d u a).a))
+        + (BOp.deduceK (liftB (f := f) b d u a) (liftS b0 d0 u0) (liftS b1 d1 u1) (XQ.fin ay)).1)
+      (Scalar.zero : XQ f) = false := by
+  rw [deduceK_fst' hx.hu hy0 hy1]
+  show Scalar.lt (XQ.fin b * XQ.fin u0 + XQ.fin d * XQ.fin u1
+    + XQ.fin u * (XQ.fin u0 * XQ.fin a + XQ.fin u1 * (Scalar.one - XQ.fin a)) + XQ.fin _) (Scalar.zero : XQ f) = false
+  simp only [XQ.one_def, XQ.zero_def, XQ.sub_fin, XQ.mul_fin, XQ.add_fin, XQ.lt_fin, decide_eq_false_iff_not, not_lt]
+  have := (res_bwf hx h0 h1 hy0 hy1).hu
+  unfold mixq at this
+  exact this
+
+/-- non-vacuity / FALSE before the repair: the (ill-formed, finite) conditionals `y|x = y|¬x = (-2^-53, 0, 1 + 2^-53)` with
+    the absolute antecedent `(1, 0, 0; 1/2)`, `ay = 1/2` (Case I): the un-clamped operator (`Pinned.bdeduceNoClamp`) returns
+    -- accepted by the tolerance of the constructor -- the belief `-2^-53 < 0`; the model returns `(0, 0, 1)`, and the raw
+    uncertainty `1 + 2^-53` is not below zero -/
+example :
+    let w : BOp (XQ .f64) := ⟨.fin 1, .fin 0, .fin 0, .fin (1/2)⟩
+    let c : XQ .f64 × XQ .f64 × XQ .f64 := (.fin (-1/9007199254740992), .fin 0, .fin (9007199254740993/9007199254740992))
+    (match (Pinned.bdeduceNoClamp w c c (.fin (1/2))).1 with
+      | .ok r => decide (r.b = .fin (-1/9007199254740992) ∧ r.d = .fin 0 ∧ r.u = .fin (9007199254740993/9007199254740992))
+      | .error _ => false) = true ∧
+    (match (BOp.deduce w c c (.fin (1/2))).1 with
+      | .ok r => decide (r.b = .fin 0 ∧ r.d = .fin 0 ∧ r.u = .fin 1) | .error _ => false) = true ∧
+    Scalar.lt (w.b * c.2.2 + w.d * c.2.2 + w.u * (c.2.2 * w.a + c.2.2 * (Scalar.one - w.a))
+      + (BOp.deduceK w c c (.fin (1/2))).1) (Scalar.zero : XQ .f64) = false := by
+  decide +kernel
+
+/-- the condition on the raw uncertainty in `C14_masses_nonneg_gen` is needed: conditionals `(2^-53, 0, -1)` (raw
+    uncertainty `-1`, normaliser `2^-53 - 1 < 0`): the model's result is accepted with the belief `-1/(2^53 - 1) < 0` and the
+    uncertainty `2^53/(2^53 - 1) > 1` (both inside the tolerance of the constructor) -/
+example :
+    let w : BOp (XQ .f64) := ⟨.fin 1, .fin 0, .fin 0, .fin (1/2)⟩
+    let c : XQ .f64 × XQ .f64 × XQ .f64 := (.fin (1/9007199254740992), .fin 0, .fin (-1))
+    (match (BOp.deduce w c c (.fin (1/2))).1 with
+      | .ok r => decide (r.b = .fin (-1/9007199254740991) ∧ r.d = .fin 0 ∧ r.u = .fin (9007199254740992/9007199254740991))
+      | .error _ => false) = true := by
+  decide +kernel
 
 /-! ### 6. non-vacuity -/
 
